@@ -199,6 +199,15 @@ pub fn generate_c02(thorough: bool, seed: u64, _part: (usize, usize), em: &mut E
 }
 
 pub fn generate_c05(thorough: bool, seed: u64, part: (usize, usize), em: &mut Emitter) {
+    // whole connections in which the server refuses one or both channel joins (a legal reply): the
+    // client goes on (or fails) without crashing
+    if part.0 == 0 {
+        for jrefuse in 1..=3u8 { for nla in &[false, true] {
+            let cfg = crate::props::conn::Cfg { w: 800, h: 600, lay: 0x409, name: "rdp-rs".into(), dom: "d".into(), user: "u".into(), pw: "p".into(), hash: false, ra: false, blank: false, auto: false, nla: *nla, check: false };
+            let srv = crate::props::conn::SrvCfg { sel: 0, id: 1, uid: 1004, version: 0x80004, license_new: false, share: 0x103ea, caps: crate::props::conn::default_caps(), source: vec![], chal_flags: 0x62898235, inputs: vec![], script: vec![], reactivate: None, reuse: 0, jrefuse };
+            let _ = crate::props::conn::emit(em, &cfg, &srv);
+        } }
+    }
     let mut r = Rng::new(seed ^ 0xC05);
     if part.0 == 0 { crate::props::per::generate_hostile(thorough, &mut r, em); }
     let p = SrvParams::default();
